@@ -9,6 +9,7 @@ import (
 	"sort"
 	"strings"
 	"sync"
+	"sync/atomic"
 	"testing"
 	"testing/synctest"
 	"time"
@@ -20,6 +21,8 @@ import (
 type Action struct {
 	Label string
 	Do    func()
+	// Req is set for lock grants.
+	Req *LockReq
 	// Internal actions (grants, due deliveries) are instantaneous consequences; environment
 	// actions are timed events of the plan. Only used for statistics.
 	Env bool
@@ -60,6 +63,7 @@ type World struct {
 	wakes  []time.Duration
 
 	Steps      int
+	stepsA     atomic.Int64
 	Violations []Violation
 	Probes     map[string]int
 	States     map[uint64]struct{}
@@ -69,6 +73,8 @@ type World struct {
 	OnQuiescent func(now time.Duration)
 	// Prefer, if set, may pick the index of the action to run (used for atomic sections); -1 = no preference.
 	Prefer func(acts []Action) int
+	// OnAction is told which action is about to run.
+	OnAction func(a *Action)
 	// Fair switches the picker to round-robin (drain phase).
 	Fair   bool
 	fairN  int
@@ -95,6 +101,9 @@ func (w *World) Dial(ctx context.Context, network, host string) (net.Conn, error
 }
 
 func (w *World) Now() time.Duration { return time.Since(w.start) }
+
+// StepNow returns the number of driver steps so far; safe to call from workload goroutines.
+func (w *World) StepNow() int { return int(w.stepsA.Load()) }
 
 // StartTime is the (fake) wall-clock instant at which the world was created.
 func (w *World) StartTime() time.Time { return w.start }
@@ -183,7 +192,7 @@ func (w *World) enabled(now time.Duration) []Action {
 			if r.Write {
 				mode = "W"
 			}
-			acts = append(acts, Action{Label: "grant " + mode + " " + r.Role + " @" + r.Site, Do: func() { w.Sched.Grant(r) }})
+			acts = append(acts, Action{Label: "grant " + mode + " " + r.Role + " @" + r.Site, Req: r, Do: func() { w.Sched.Grant(r) }})
 		}
 	}
 	for _, c := range w.Net.ordered() {
@@ -290,6 +299,10 @@ func (w *World) Run(done func() bool, maxSteps int, horizon time.Duration) bool 
 			}
 		}
 		w.Steps++
+		w.stepsA.Store(int64(w.Steps))
+		if w.OnAction != nil {
+			w.OnAction(&acts[k])
+		}
 		w.logf("#%d [%d] %s", w.Steps, len(acts), acts[k].Label)
 		if w.Log.verbose {
 			for i, a := range acts {
